@@ -454,6 +454,7 @@ pub fn run(ctx: &Ctx) -> i32 {
             exhaustive: None,
             extra: vec![],
             min_distinct: 100,
+            min_counters: vec![],
         },
     )
 }
